@@ -187,6 +187,9 @@ Context {F W : Type}.
 Variable f1 : F -> list Qc -> list Qc.            (* f(blk) *)
 Variable f2 : F -> list Qc -> nat -> list Qc.     (* f(blk, size) *)
 Variable wsem : W -> wndarg.
+(* truth value of a stage callable: an object with __len__ () = 0 or __bool__ () = False (an empty callable list
+   such as ParallelFilter ()) is still a callable.  Only transform / inverse_transform look at it, see stage2. *)
+Variable falsy : F -> bool.
 
 Inductive val := VNone | VNat (n : nat) | VBool (b : bool) | VWnd (w : W) | VFun (f : F)
                | VOla (o : olakind) | VOpaque (id : nat).
@@ -285,7 +288,10 @@ Definition stage1 (v : option val) : exn + option bfun :=
 Definition stage2 (size : nat) (v : option val) : exn + option bfun :=
   match v with
   | Some VNone => inr None
-  | Some (VFun f) => inr (Some (fun blk => f2 f blk size))
+  | Some (VFun f) =>
+      (* "trans = transform and (lambda blk: transform(blk, size))": a callable whose truth value is False
+         is kept as it is, and the chain then calls it with the block only *)
+      if falsy f then inr (Some (f1 f)) else inr (Some (fun blk => f2 f blk size))
   | _ => inl ScopeError
   end.
 Definition wnd_of_val (v : val) : wndarg :=
